@@ -176,6 +176,8 @@ int main(int argc, char **argv) {
     if (A.has("deadline-s")) R.deadline_abs = vr::now_s() + A.getd("deadline-s", 0);
     vx::stop_hook() = [&R]() { return R.expired(); };
 
+    vv::out_kind() = (int) A.geti("outiter", 0);
+    vv::wmap_kind() = (int) A.geti("wmap", 0);        // 1: exterior weight map, decoy values in the interior property     // 1: positional output iterator into a pre-sized vector
     if (A.has("replay-case")) {
         auto pc = vg::parse_case(A.get("replay-case"));
         int var = vv::variant_by_short(pc.get("variant"));
@@ -211,8 +213,6 @@ int main(int argc, char **argv) {
     int orient_mode = (int) A.geti("orient", 0);
     vg::plus_heavy_k2() = A.has("plus-heavy-k2");
     vg::edge_order_mode() = (int) A.geti("eorder", 0);
-    vv::out_kind() = (int) A.geti("outiter", 0);
-    vv::wmap_kind() = (int) A.geti("wmap", 0);        // 1: exterior weight map, decoy values in the interior property     // 1: positional output iterator into a pre-sized vector
     auto unit_graph0 = [&](uint64_t u) { uint64_t uu = ((u / wchunks) + seed) % ngraphs; return blob ? blob->build(uu) : fams.empty() ? vg::graph_from_mask(n, uu) : vg::relabel(vg::family(fams[uu / relabel_n]), (int) (uu % relabel_n)); };
     auto unit_graph = [&](uint64_t u) { vg::EdgeList g = unit_graph0(u); vg::order_edges(g); vg::orient(g, orient_mode); if (vg::plus_heavy_k2()) { g.e.push_back({g.n, g.n + 1}); g.n += 2; } return g; };
     auto describe = [&](uint64_t u, uint64_t sub, uint64_t) {
